@@ -23,6 +23,9 @@ package main
 //	WBl<c> / WBa<c>   a WriteTo on c starts blocking, on the loop goroutine / on another goroutine
 //	WR<c>   a blocked WriteTo on c returned
 //	RX<c>   a ReadFrom on c returned an error (recvLoop is about to exit)
+//	SC<c>   socket c was created (ListenUDP or handed to addCandidate by the script)
+//	RD<c>   the first ReadFrom on c (the candidate's recvLoop runs)
+//	SA<c>   the agent owns socket c (it listened on it, or addCandidate accepted it)
 
 import (
 	"errors"
@@ -108,6 +111,7 @@ type fconn struct {
 	inbox    chan pkt
 	blocked  chan struct{} // closed when the first write blocks
 	blkOnce  sync.Once
+	rdOnce   sync.Once
 	nblocked atomic.Int32
 	closes   int
 }
@@ -126,6 +130,9 @@ func (w *world) newConn(side int, ip net.IP, port int, mode int, closeErr bool) 
 	}
 	w.nconn[side]++
 	w.conns[c.laddr.String()] = c
+	if side == 0 {
+		w.ev.add("SC" + c.name())
+	}
 
 	return c
 }
@@ -244,6 +251,7 @@ func (w *world) deliver(from *fconn, p []byte, addr net.Addr) {
 }
 
 func (c *fconn) ReadFrom(p []byte) (int, net.Addr, error) {
+	c.rdOnce.Do(func() { c.log("RD" + c.name()) })
 	closed, dl := c.state()
 	if closed {
 		c.log("RX" + c.name())
@@ -444,6 +452,7 @@ func (n *fnet) ListenUDP(_ string, locAddr *net.UDPAddr) (transport.UDPConn, err
 	}
 	n.mu.Unlock()
 	c := n.w.newConn(n.side, ip, port, mode, ce)
+	c.log("SA" + c.name()) // the agent owns what it listens on
 	n.mu.Lock()
 	n.listened = append(n.listened, c)
 	n.mu.Unlock()
